@@ -46,7 +46,19 @@ TwoPartyVector(s, grp, seedR) ==
        UnprotectStep("C07", "I", TRUE, Ref(8, "wire"), "pre", AcceptExp(m2)),
        ChildStep("C08", "I", "CI", s.prf, keys.sk_d, FillT("seeded", 48, 9), 256, "sha1"),
        ChildStep("C08", "R", "CR", s.prf, keys.sk_d, FillT("seeded", 48, 9), 256, "sha1"),
-       ChildStep("C08", "R", "CS", s.prf, keys.sk_d, FillT("ramp", 16, 3), 128, "none") >>)
+       ChildStep("C08", "R", "CS", s.prf, keys.sk_d, FillT("ramp", 16, 3), 128, "none"),
+       \* an empty nonce on SA objects that went through the library's own derivation
+       ChildStep("C08", "I", "CE", s.prf, keys.sk_d, FillT("zero", 0, 0), 192, "md5"),
+       ChildStep("C08", "R", "CF", s.prf, keys.sk_d, FillT("zero", 0, 0), 192, "md5") >>)
+
+\* the peer's public value is 1: the shared secret is 1, i.e. 127 / 255 leading zero octets that must be preserved in SKEYSEED
+LeadingZeroVector(s, grp) ==
+  LET nonce == FillT("seeded", 40, Seed + 6) sp == SpiPairs[4]
+      shared == LPad(Lit(<< 1 >>), DhLen(grp)) IN
+  VectorD("leadingzero", IkeKeyDefs(s, nonce, shared, Lit(sp[1]), Lit(sp[2])),
+    << NewIkeSaStep("C07", "R", s, grp, Lit(<< 1 >>), nonce, sp[1], sp[2], [mode |-> "det", seed |-> 5]),
+       SaProbeStep("C07", "R", s),
+       Step("dh_shared", "C09", FALSE, [grp |-> grp, x |-> XI, peer |-> Lit(<< 1 >>)], [panic |-> FALSE, shared |-> shared]) >>)
 
 FaultVector(s, grp, k) ==
   VectorD("newsa_fault", << >>,
@@ -73,14 +85,16 @@ Init == stage = 0 /\ su = 0 /\ g = 0 /\ variant = 0
 Next ==
   \/ stage = 0 /\ stage' = 1 /\ su' \in 1..27 /\ g' \in {2, 14} /\ variant' = 0
   \/ stage = 1 /\ stage' = 2 /\ UNCHANGED << su, g >>
-     /\ variant' \in { v \in 1..(NV + 8) : \/ Thorough
+     /\ variant' \in { v \in 1..(NV + 9) : \/ Thorough
                                          \/ (v <= NV /\ (v + su + g) % 4 = 0)
                                          \/ (v = NV + 1 /\ (su + g) % 3 = 0) \/ (v = NV + 2 /\ su % 9 = 1)
-                                         \/ (v > NV + 2 /\ su = ((v + g) % 27) + 1) }
+                                         \/ (v > NV + 2 /\ v <= NV + 8 /\ su = ((v + g) % 27) + 1)
+                                         \/ (v = NV + 9 /\ (su + g) % 4 = 0) }
   \/ stage = 2 /\ UNCHANGED << stage, su, g, variant >>
 Vec == IF variant <= NV THEN SingleVector(SuiteSeq27[su], g, variant)
        ELSE IF variant <= NV + 2 THEN TwoPartyVector(SuiteSeq27[su], g, variant + su)
-       ELSE FaultVector(SuiteSeq27[su], g, variant - NV - 3)        \* fail at read 0..5
+       ELSE IF variant <= NV + 8 THEN FaultVector(SuiteSeq27[su], g, variant - NV - 3)        \* fail at read 0..5
+       ELSE LeadingZeroVector(SuiteSeq27[su], g)
 Emit == stage = 2 => PrintT(ToJson(Vec))
 Sound == TRUE
 =============================================================================
